@@ -19,7 +19,7 @@ import (
 
 // C06 — Compile is total: no panic, crash or hang; exactly one of (expr, error).
 
-const ruleC06 = "rapid: valid expression text from all fragments (incl. unconstrained ones) or token soup, then 0-3 mutations, byte-level (delete / duplicate a range, flip a byte, insert a token from a dictionary) or token-level (delete / duplicate / swap lexical words of XPath tokens, quotes, brackets, NUL, invalid UTF-8, multi-byte names) x namespace configuration (Compile; CompileWithNS with nil, empty, binding and non-binding maps). mixed: alternations of two constructs (predicate/function, predicate/arithmetic, parenthesis/union, sequence/predicate/function ...) at depths 2..198, whose compile cost must stay polynomial; two-phase: N completed sibling constructs followed by a construct nested N+250 deep (N up to 10^5 quick / 1.5*10^6 thorough) for 7 prefix x 5 nesting constructs; deep: every recursive construct of the grammar ('(', 'a[', 'f(', 'a/(', 'a/(b,', '-', 'a/', 'a//', '[1]', '1+', 'a|', 'or', '=', alternations of two) nested to depth 10^2..10^5 under an 8 MB maximum stack (quick) or ..3*10^6 under the default 1 GB stack (thorough), closed and unclosed, each journalled before it runs so that a dying process is attributed. pumped segments: prefix + segment^n + suffix (n = 40; thorough 24, 40, 64, 150) for every segment of <= 3 chunks from 37 lexical chunks and small balanced constructs ('/', '(b,c)', '[b|c]', ' or ', 'not(' ...) in 5 frames, decided by an allocation budget (a Compile that passes 6*10^7 allocations is abandoned and reported) so that a cost that multiplies per repeated sibling is seen without waiting for the clock; short byte strings: every string of <= 3 bytes over 26 hostile bytes (UTF-8 lead/continuation bytes, BOM bytes, NUL, 0xFF, quotes, brackets) x 2 namespace configurations. thorough also: native go fuzzing of the same oracle. Oracle: Compile/CompileWithNS return exactly one of (non-nil expr, non-nil error); no panic escapes; the process survives; MustCompile returns a usable non-nil expression; a returned expression answers String() with the input; every call returns within a generous wall-clock margin (re-tried once in isolation). Non-trivial: the input was mutated, or is soup, or is a depth case; distinct by input bytes + namespace configuration."
+const ruleC06 = "rapid: valid expression text from all fragments (incl. unconstrained ones) or token soup, then 0-3 mutations, byte-level (delete / duplicate a range, flip a byte, insert a token from a dictionary) or token-level (delete / duplicate / swap lexical words of XPath tokens, quotes, brackets, NUL, invalid UTF-8, multi-byte names) x namespace configuration (Compile; CompileWithNS with nil, empty, binding and non-binding maps). mixed: alternations of two constructs (predicate/function, predicate/arithmetic, parenthesis/union, sequence/predicate/function ...) at depths 2..198, whose compile cost must stay polynomial; two-phase: N completed sibling constructs followed by a construct nested N+250 deep (N up to 10^5 quick / 1.5*10^6 thorough) for 7 prefix x 5 nesting constructs; deep: every recursive construct of the grammar ('(', 'a[', 'f(', 'a/(', 'a/(b,', '-', 'a/', 'a//', '[1]', '1+', 'a|', 'or', '=', alternations of two) nested to depth 10^2..10^5 under an 8 MB maximum stack (quick) or ..3*10^6 under the default 1 GB stack (thorough), closed and unclosed, each journalled before it runs so that a dying process is attributed. pumped segments: prefix + segment^n + suffix (n = 40; thorough 24, 40, 64, 150) for every segment of <= 3 chunks from 37 lexical chunks and small balanced constructs ('/', '(b,c)', '[b|c]', ' or ', 'not(' ...) in 5 frames, decided by an allocation budget (a Compile that passes 6*10^7 allocations is abandoned and reported) so that a cost that multiplies per repeated sibling is seen without waiting for the clock; short byte strings: every string of <= 3 bytes over 26 hostile bytes (UTF-8 lead/continuation bytes, BOM bytes, NUL, 0xFF, quotes, brackets) x 2 namespace configurations. thorough also: native go fuzzing of the same oracle. Oracle: Compile/CompileWithNS return exactly one of (non-nil expr, non-nil error); no panic escapes; the process survives; MustCompile returns a usable non-nil expression; a returned expression answers String() without panicking; every call returns within a generous wall-clock margin (re-tried once in isolation). Non-trivial: the input was mutated, or is soup, or is a depth case; distinct by input bytes + namespace configuration."
 
 var (
 	uC06Rapid = harness.NewUnit("C06", "rapid-mutated-inputs", ruleC06)
@@ -137,8 +137,8 @@ func checkCompileTotal(s string, hasNS bool, ns map[string]string) (accepted boo
 		if (e == nil) == (err == nil) {
 			return false, dt, harness.Failf("exactly one of (expr, err)", fmt.Sprintf("expr=%v err=%v", e != nil, err), "Compile must return exactly one of an expression and an error")
 		}
-		if e != nil && e.String() != s {
-			return true, dt, harness.Failf(fmt.Sprintf("%q", clip(s)), fmt.Sprintf("%q", clip(e.String())), "String() of the compiled expression is not the input")
+		if e != nil {
+			_ = e.String() // usable: must not panic (what it returns is not part of C06)
 		}
 		return e != nil, dt, nil
 	}
